@@ -927,8 +927,8 @@ sexp sexp_ratio_round (sexp ctx, sexp a) {
     q = sexp_add(ctx, q, (sexp_exact_positivep(q) ? SEXP_ONE : SEXP_NEG_ONE));
   } else {
     r = sexp_remainder(ctx, sexp_ratio_numerator(a), sexp_ratio_denominator(a));
-    r = sexp_mul(ctx, r, SEXP_TWO);
-    if (sexp_exact_negativep(r)) {sexp_negate(r);}
+    /* |2r|, without negating a fixnum in place (-2^62 has no fixnum negative) */
+    r = sexp_mul(ctx, r, sexp_exact_negativep(r) ? sexp_make_fixnum(-2) : SEXP_TWO);
     if (sexp_unbox_fixnum(sexp_compare(ctx, r, sexp_ratio_denominator(a))) > 0)
       q = sexp_add(ctx, q, (sexp_exact_negativep(sexp_ratio_numerator(a)) ? SEXP_NEG_ONE : SEXP_ONE));
   }
